@@ -143,10 +143,11 @@ fn fmt_name(f: &OutputFormat) -> &'static str {
 
 /// one printer, a sequence of results; returns failures
 fn judge(names: &[&str], results: &[Vec<Vec<usize>>], format: &OutputFormat, single_result: bool, dom: &[Value], rank: u64) -> (Vec<Failure>, bool) {
-    let case = json!({"columns": names, "results": results, "format": fmt_name(format), "single_result": single_result});
+    let delim: String = match format { OutputFormat::CSV(d) => d.clone(), _ => ";".to_string() };
+    let case = json!({"columns": names, "results": results, "format": fmt_name(format), "delimiter": delim, "single_result": single_result});
     let rrs: Vec<ResultRow> = results.iter().map(|rows| ResultRow { columns: names.iter().map(|s| s.to_string()).collect(), data: rows.iter().map(|r| Row::new(r.iter().map(|i| dom[*i].clone()).collect())).collect() }).collect();
     let printed = catch(|| {
-        let mut p = OutputPrinter::with_printer(CapturePrinter { lines: vec![], interrupt: None }, format.clone());
+        let mut p = OutputPrinter::with_printer(CapturePrinter { lines: vec![], interrupt: None, watch: None, flag_false_at: None }, format.clone());
         for rr in &rrs {
             p.print(rr, single_result);
         }
@@ -172,9 +173,9 @@ fn judge(names: &[&str], results: &[Vec<Vec<usize>>], format: &OutputFormat, sin
             let rvals: Vec<RVal> = row.columns.iter().map(from_value).collect();
             if matches!(format, OutputFormat::CSV(_)) && first_record {
                 match lines.get(idx) {
-                    Some(h) if *h == names.join(";") => {}
+                    Some(h) if *h == names.join(delim.as_str()) => {}
                     other => {
-                        bad("csv-header", format!("expected header {:?} before the first record, got {:?}", names.join(";"), other), &mut out);
+                        bad("csv-header", format!("expected header {:?} before the first record, got {:?}", names.join(delim.as_str()), other), &mut out);
                         break 'outer;
                     }
                 }
@@ -216,8 +217,9 @@ fn judge(names: &[&str], results: &[Vec<Vec<usize>>], format: &OutputFormat, sin
                     }
                 },
                 OutputFormat::CSV(_) => {
-                    if all_clean {
-                        let fields: Vec<&str> = line.split(';').collect();
+                    // (a delimiter of several characters: values that contain any of its characters are left out)
+                    if all_clean && !delim.is_empty() && rvals.iter().all(|v| simple_text(v).map(|t| !t.chars().any(|c| delim.contains(c))).unwrap_or(true)) && names.iter().all(|n| !n.chars().any(|c| delim.contains(c))) {
+                        let fields: Vec<&str> = line.split(delim.as_str()).collect();
                         if fields.len() != names.len() {
                             bad("csv-field-count", format!("record {:?} has {} fields for {} columns", line, fields.len(), names.len()), &mut out);
                             break 'outer;
@@ -286,7 +288,7 @@ pub fn run(ctx: &Ctx) -> i32 {
     let col = Collector::new();
     let dom = domain();
     let n = dom.len();
-    let formats = [OutputFormat::Text, OutputFormat::Json, OutputFormat::CSV(";".to_string())];
+    let formats = [OutputFormat::Text, OutputFormat::Json, OutputFormat::CSV(";".to_string()), OutputFormat::CSV(" | ".to_string()), OutputFormat::CSV("\t".to_string()), OutputFormat::CSV("||".to_string())];
     // layer 1: single rows of 1 and 2 columns over the full domain
     let mut cases: Vec<(Vec<&'static str>, Vec<Vec<Vec<usize>>>)> = Vec::new();
     for i in 0..n {
@@ -334,7 +336,7 @@ pub fn run(ctx: &Ctx) -> i32 {
                 let (fs, esc) = judge(names, results, f, single, &dom, idx);
                 col.eval(1);
                 if esc {
-                    col.nontrivial(h64(&(idx, fmt_name(f), single)));
+                    col.nontrivial(h64(&(idx, fmt_name(f), format!("{:?}", f), single)));
                 }
                 col.outcome(h64(&(fmt_name(f), fs.len(), results.len(), results.iter().map(|r| r.len()).sum::<usize>())));
                 for x in fs {
@@ -564,7 +566,7 @@ pub fn replay(case: &J) -> Vec<Failure> {
     let results: Vec<Vec<Vec<usize>>> = serde_json::from_value(case["results"].clone()).unwrap();
     let f = match case["format"].as_str() {
         Some("json") => OutputFormat::Json,
-        Some("csv") => OutputFormat::CSV(";".into()),
+        Some("csv") => OutputFormat::CSV(case["delimiter"].as_str().unwrap_or(";").to_string()),
         _ => OutputFormat::Text,
     };
     judge(&nrefs, &results, &f, case["single_result"].as_bool().unwrap_or(true), &dom, 0).0
